@@ -247,6 +247,20 @@ CHECKS = {
         "preserve (then nothing); compositions without a config base and unknown cars are rejected.",
         "Trusted: the reference merge (20 lines) and renderer (10 lines). Plugins and bootstrap hooks are not generated.",
     ),
+    "C14": (
+        "fault_enumeration",
+        "exhaustive enumeration of initial on-disk states x download-outcome words over a scripted HTTP endpoint, and of every crash point "
+        "(each write, torn writes, rename/replace, remove) of a first run followed by a second run on the snapshot, on the real corpus "
+        "preparation code and real files",
+        "DESIGN.md §4 C14",
+        "L1: document {absent, correct, truncated, too long} x archive {absent, correct, truncated, corrupt} x {plain, bz2, gz, zst, zip} x "
+        "sizes declared/undeclared x offline x base-url x all download words of length <= 2 (3) over 7 outcomes plus the 10-retry boundary; "
+        "L2: every I/O step of a first run as a kill point (3 torn offsets per write), second run on the snapshot; L3: offset-table states and "
+        "table-build crash points on a 100,001-line file. Oracle: if preparation returns, the document has the declared size and the published "
+        "content and skip_lines agrees with naive skipping at probe lines; otherwise an exception; the download target never holds a partial "
+        "file; the loop terminates; healthy states/environments must succeed. 2 recorded findings.",
+        "Trusted: the scripted endpoint (50 lines), the file-system step hooks (80 lines). Process-kill crash model, library decompression only.",
+    ),
 }
 
 NOT_YET = {}
